@@ -3,10 +3,13 @@ Lemmas for Props/C02Acts.lean: the interpretation (`Model/ParserActs.lean`) of t
 of `csiDispatch` and `hook` equals the hand-written `applyAct` of `Model/Parser.lean`, and Go `int`
 wrap-around in the parameter decoder.
 
-The skeletons below (`csiBody`, `hookBody`) are the ones the lemmas are proved for;
-`Props/C02Acts.lean` proves by kernel evaluation that the skeletons regenerated from ansi/parser.go
-(`Gen/ParserActs.lean`) are equal to them.  This file does not import the generated file, so it keeps
-building when the source changes and each theorem of `Props/C02Acts.lean` fails on its own.
+Nothing here mentions a particular statement list (no hand copy of a body): the lemmas say what the
+`switch` of csiDispatch's loop / the body of hook's `range` loop have to *compute* (`CsiStep`,
+`HookFieldOk`) for the loops to be `decodeLoop` / `hookParams`; `Props/C02Acts.lean` proves these
+conditions for the bodies regenerated from ansi/parser.go (`Gen/ParserActs.lean`) by evaluating the
+interpreter on them, so a reordering the interpreter evaluates to the same function keeps the proofs.
+This file does not import the generated file, so it keeps building when the source changes and each
+theorem of `Props/C02Acts.lean` fails on its own.
 Core Lean only.
 -/
 import VaxisModel.Model.ParserActs
@@ -36,68 +39,53 @@ theorem wrap64_step (a d : Int) : wrap64 (wrap64 a * 10 + d) = wrap64 (a * 10 + 
 
 /-! ### csiDispatch -/
 
-/-- `switch b` of csiDispatch's loop: the clauses `case ';'`, `case ':'`. -/
-def csiCases : List (Nat × List LoopOp) :=
-  [(0x3B, [.appendParamPs, .appendParamsParam, .newParam, .psZero]), (0x3A, [.appendParamPs, .psZero])]
-/-- … and its `default` clause. -/
-def csiDflt : List LoopOp := [.psMulConst 10, .psAddDigit 0x30]
-
-/-- The skeleton of `csiDispatch` the lemmas are proved for. -/
-def csiBody : List BStmt :=
-  [.declSeq .csi, .takeInter .csi, .emitRetIfNoParams .csi, .op .newParams, .op .psZero, .op .newParam,
-   .paramLoop csiCases csiDflt, .op .appendParamPs, .op .appendParamsParam, .emitLocal .csi]
-
-/-- One iteration of the loop body. -/
-theorem csi_step (b : Rune) (st : LoopSt) :
-    runOps b (findCase csiCases csiDflt b) st =
+/-- What one iteration of csiDispatch's loop (`switch b { … }`) must compute on the locals
+    `(ps, param, csi.Parameters)`. -/
+def CsiStep (cases : List (Nat × List LoopOp)) (dflt : List LoopOp) : Prop :=
+  ∀ (b : Rune) (st : LoopSt),
+    runOps b (findCase cases dflt b) st =
       if b = 0x3B then { ps := 0, param := [], acc := st.acc ++ [st.param ++ [st.ps]] }
       else if b = 0x3A then { ps := 0, param := st.param ++ [st.ps], acc := st.acc }
-      else { ps := wrap64 (st.ps * 10 + ((b : Int) - 0x30)), param := st.param, acc := st.acc } := by
-  by_cases h1 : b = 0x3B
-  · subst h1; rfl
-  · by_cases h2 : b = 0x3A
-    · subst h2; rfl
-    · simp only [findCase, csiCases, csiDflt, h1, h2, if_false, runOps, LoopOp.run, wrap64_mul_add]
+      else { ps := wrap64 (st.ps * 10 + ((b : Int) - 0x30)), param := st.param, acc := st.acc }
 
-/-- The loop followed by the two statements after it = `decodeLoop`, from any loop state. -/
-theorem loopRun_csi (bs : List Rune) (st : LoopSt) :
-    (loopRun csiCases csiDflt bs st).acc ++
-      [(loopRun csiCases csiDflt bs st).param ++ [(loopRun csiCases csiDflt bs st).ps]]
+/-- A loop whose iteration is `CsiStep`, followed by the two statements after it = `decodeLoop`, from
+    any loop state. -/
+theorem loopRun_sem (cases : List (Nat × List LoopOp)) (dflt : List LoopOp) (h : CsiStep cases dflt)
+    (bs : List Rune) (st : LoopSt) :
+    (loopRun cases dflt bs st).acc ++
+      [(loopRun cases dflt bs st).param ++ [(loopRun cases dflt bs st).ps]]
       = decodeLoop bs st.ps st.param st.acc := by
   induction bs generalizing st with
   | nil => rfl
   | cons b rest ih =>
-    simp only [loopRun, decodeLoop, csi_step]
+    simp only [loopRun, decodeLoop, h b st]
     by_cases h1 : b = 0x3B
     · simp only [h1, if_true]; rw [ih]
     · by_cases h2 : b = 0x3A
       · simp only [h2, if_true]; rw [ih]; rfl
       · simp only [h1, h2, if_false]; rw [ih]
 
-theorem interp_csiBody (r : Rune) (s : PState) : interpBody csiBody r s = applyAct .csiDispatch r s := by
-  obtain ⟨state, inter, params, exit, ignoreST, osc, apc, dcs⟩ := s
-  have key := loopRun_csi params {}
-  cases inter <;> cases params <;>
-    simp [interpBody, csiBody, interpStmts, interpStmt, emitSeq, applyAct, decodeParams, LoopOp.run] <;>
-    exact key
-
 /-! ### hook -/
 
-def hookOps : List HookOp := [.ifEmptyAppendContinue 0, .atoi, .ifErrEmitReturn, .appendVal]
-
-/-- The skeleton of `hook` the lemmas are proved for. -/
-def hookBody : List BStmt :=
-  [.setExit .unhook, .declSeq .dcs, .takeInter .dcs, .retIfNoParams, .splitParams 0x3B, .hookNewParams,
-   .hookLoop hookOps, .assignDcsParams]
+/-- What the body of hook's `for _, param := range paramStr` must compute for one field, from the
+    locals `params` (`val`, `err` are fresh in every iteration). -/
+def HookFieldOk (ops : List HookOp) : Prop :=
+  ∀ (f : List Rune) (ps : List Int),
+    hookField f ops ps 0 false =
+      if f.isEmpty then .cont (ps ++ [0])
+      else match atoi f with
+        | some v => .cont (ps ++ [v])
+        | none => .ret ps [.err]
 
 /-- No Atoi error: the loop appends exactly the values of `hookParams`, emits nothing, falls through. -/
-theorem hookLoop_some (fs : List (List Rune)) (acc l : List Int) (h : hookParams fs = some l) :
-    hookLoopRun hookOps fs acc = (acc ++ l, [], false) := by
+theorem hookLoop_some (ops : List HookOp) (hf : HookFieldOk ops) (fs : List (List Rune)) (acc l : List Int)
+    (h : hookParams fs = some l) :
+    hookLoopRun ops fs acc = (acc ++ l, [], false) := by
   induction fs generalizing acc l with
   | nil => simp [hookParams] at h; subst h; simp [hookLoopRun]
   | cons f rest ih =>
     simp only [hookParams] at h
-    simp only [hookLoopRun, hookOps, hookField]
+    simp only [hookLoopRun, hf f acc]
     split at h
     · rename_i he
       cases hr : hookParams rest with
@@ -105,7 +93,7 @@ theorem hookLoop_some (fs : List (List Rune)) (acc l : List Int) (h : hookParams
       | some l' =>
         simp [hr] at h; subst h
         simp only [he, if_true]
-        rw [← hookOps, ih _ _ hr]; simp
+        rw [ih _ _ hr]; simp
     · rename_i he
       cases ha : atoi f with
       | none => simp [ha] at h
@@ -117,22 +105,23 @@ theorem hookLoop_some (fs : List (List Rune)) (acc l : List Int) (h : hookParams
           simp [hr] at h; subst h
           simp only [he]
           simp
-          rw [← hookOps, ih _ _ hr]; simp
+          rw [ih _ _ hr]; simp
 
 /-- An Atoi error: exactly one `err` item and `return`. -/
-theorem hookLoop_none (fs : List (List Rune)) (acc : List Int) (h : hookParams fs = none) :
-    ∃ ps, hookLoopRun hookOps fs acc = (ps, [.err], true) := by
+theorem hookLoop_none (ops : List HookOp) (hf : HookFieldOk ops) (fs : List (List Rune)) (acc : List Int)
+    (h : hookParams fs = none) :
+    ∃ ps, hookLoopRun ops fs acc = (ps, [.err], true) := by
   induction fs generalizing acc with
   | nil => simp [hookParams] at h
   | cons f rest ih =>
     simp only [hookParams] at h
-    simp only [hookLoopRun, hookOps, hookField]
+    simp only [hookLoopRun, hf f acc]
     split at h
     · rename_i he
       simp only [he, if_true]
       cases hr : hookParams rest with
       | some l' => simp [hr] at h
-      | none => rw [← hookOps]; exact ih _ hr
+      | none => exact ih _ hr
     · rename_i he
       simp only [he]
       cases ha : atoi f with
@@ -141,19 +130,7 @@ theorem hookLoop_none (fs : List (List Rune)) (acc : List Int) (h : hookParams f
         simp only [ha] at h
         cases hr : hookParams rest with
         | some l' => simp [hr] at h
-        | none => simp; rw [← hookOps]; exact ih _ hr
-
-theorem interp_hookBody (r : Rune) (s : PState) : interpBody hookBody r s = applyAct .hook r s := by
-  obtain ⟨state, inter, params, exit, ignoreST, osc, apc, dcs⟩ := s
-  cases hh : hookParams (splitOn 0x3B params []) with
-  | none =>
-    obtain ⟨ps, hps⟩ := hookLoop_none _ [] hh
-    cases inter <;> cases params <;>
-      simp [interpBody, hookBody, interpStmts, interpStmt, applyAct, hh, hps]
-  | some l =>
-    have := hookLoop_some _ [] l hh
-    cases inter <;> cases params <;>
-      simp [interpBody, hookBody, interpStmts, interpStmt, applyAct, hh, this]
+        | none => simp; exact ih _ hr
 
 /-! ### over-long digit strings -/
 
